@@ -280,6 +280,7 @@ def pippenger(ctx):
         except Exception:
             pass
         asserts = [o for o in ex.obligations[nob:] if 'assertion failed: bit_sequence_index != 255' in o.msg]
+        ex.harvested = len(ex.obligations)      # this run was made WITHOUT the precondition on purpose
         if asserts:
             chk.must_sat('%s pippenger: top-bit assert! is reachable when bit 255 of a scalar is set' % gname, asserts[0].formula(), group='precondition')
         else:
